@@ -28,7 +28,7 @@ var debugGS = os.Getenv("C11_DEBUG") != ""
 type gsCase struct {
 	proto   string // h1
 	stage   int    // stagemanager state at the time Shutdown is invoked
-	phase   string // pre | hdr | body | wait | resp
+	phase   string // pre | hdr | body | wait | resp | dfr (h2: between the DATA frames of the request body)
 	idle    int    // idle keep-alive connections existing at the signal
 	bg      int    // closed-loop background clients running until the in-flight request may proceed
 	drain   int    // drain time in ticks
@@ -195,6 +195,9 @@ func runGSOnce(c *hx.Ctx, g gsCase) (string, []string) {
 		sent = len(hd) / 2
 	case "body":
 		sent = len(hd) + len(bd)/2
+	case "dfr":
+		// HTTP/2 only: exactly between the DATA frames of the body (the first DATA frame carries size/3 bytes)
+		sent = len(hd) + 9 + 2048/3
 	default:
 		sent = len(full)
 	}
